@@ -20,6 +20,19 @@ def windowsClosed : List String → Bool
   | _ :: r => windowsClosed r
   | [] => true
 
+/-- the number of critical sections a method's lock operations describe: `Lock; defer Unlock`
+followed by any number of `Unlock; Lock` windows (a second `Lock; defer Unlock` pair belongs to a
+returned closure, which is a method call of its own) -/
+def windows : List String → Option Nat
+  | [] => some 0
+  | "Unlock" :: "Lock" :: r => (windows r).map (· + 1)
+  | "Lock" :: "defer Unlock" :: r => windows r
+  | _ => none
+
+def sectionsOf : List String → Option Nat
+  | "Lock" :: "defer Unlock" :: r => (windows r).map (· + 1)
+  | _ => none
+
 def opsClosed (t : List Row) : Bool :=
   t.all (fun e => (lkOps e).all (fun o => o == "Lock" || o == "defer Unlock" || o == "Unlock"))
 
